@@ -25,8 +25,29 @@ class ClientMetadataClaims(BaseClaims):
         "request_uris",
     ]
 
+    #: members that are JSON arrays of strings
+    ARRAY_CLAIMS = ["default_acr_values", "request_uris"]
+    #: members that are JSON strings
+    STRING_CLAIMS = [
+        "token_endpoint_auth_signing_alg",
+        "application_type",
+        "sector_identifier_uri",
+        "subject_type",
+        "id_token_signed_response_alg",
+        "id_token_encrypted_response_alg",
+        "id_token_encrypted_response_enc",
+        "userinfo_signed_response_alg",
+        "userinfo_encrypted_response_alg",
+        "userinfo_encrypted_response_enc",
+        "initiate_login_uri",
+        "request_object_signing_alg",
+        "request_object_encryption_alg",
+        "request_object_encryption_enc",
+    ]
+
     def validate(self):
         self._validate_essential_claims()
+        self._validate_claim_types()
         self.validate_token_endpoint_auth_signing_alg()
         self.validate_application_type()
         self.validate_sector_identifier_uri()
@@ -45,6 +66,18 @@ class ClientMetadataClaims(BaseClaims):
         self.validate_request_object_encryption_alg()
         self.validate_request_object_encryption_enc()
         self.validate_request_uris()
+
+    def _validate_claim_types(self):
+        for key in self.ARRAY_CLAIMS:
+            value = self.get(key)
+            if value is not None and not (
+                isinstance(value, list) and all(isinstance(v, str) for v in value)
+            ):
+                raise InvalidClaimError(key)
+        for key in self.STRING_CLAIMS:
+            value = self.get(key)
+            if value is not None and not isinstance(value, str):
+                raise InvalidClaimError(key)
 
     def _validate_uri(self, key):
         uri = self.get(key)
